@@ -94,7 +94,7 @@ def run(ctx):
             return '247b' in t[1] and fi.get('r') != 'no'
         if t[0] == 'ws':
             return t[2] != '-'
-        if t[0] == 'pch':
+        if t[0] in ('pch', 'prm', 'nws'):
             return t[2] != '-'
         return t[4] != '-'
 
@@ -113,6 +113,30 @@ def run(ctx):
                     return 'package.json: re-read requirements differ from substitute(original, updates)'
                 if fi.get('bytes') != '1':
                     return 'package.json: bytes outside the addressed values changed'
+        elif op == 'nws':
+            if r in ('readerr', 'err', 'ok-nofile', 'ok-rereaderr'):
+                return 'package.json with workspaces: ' + r
+            if r == 'ok':
+                if fi.get('wreqs') != fm.get('spec'):
+                    return 'package.json with workspaces: re-read requirements differ from substitute(original, updates)'
+                if fi.get('same') != '1':
+                    return 'package.json with workspaces: a workspace package.json changed'
+                if fi.get('rest') != '1':
+                    return 'package.json with workspaces: the root file changed outside the values'
+        elif op == 'prm':
+            import json as _json
+            bad = _json.loads(bytes.fromhex(case.split(' ')[1])).get('Bad', '')
+            if bad:
+                return None if fi.get('refused') == '1' else 'pom.xml whose remote parent is unusable (%s): Read must fail, it succeeded' % bad
+            if r in ('readerr', 'ok-nofile', 'ok-rereaderr', 'ok-decoy-touched'):
+                return 'pom.xml with a remote parent: ' + r
+            if r == 'ok':
+                if fi.get('chain') != fm.get('spec'):
+                    return 'pom.xml with a remote parent / BOM import: re-read requirements differ from substitute(original, updates)'
+                if '0' in fi.get('applied', '-'):
+                    return 'pom.xml with a remote parent / BOM import: Write returned nil, but the new version of an update is not in the written file'
+                if fi.get('id') == '0':
+                    return 'pom.xml with a remote parent / BOM import: no updates, but the bytes written differ from the bytes read'
         elif op == 'pch':
             if r.startswith('ok-missing') or r == 'ok-rereaderr':
                 return 'pom.xml Write, local parent chain: ' + r + ' (every file of the chain must be written next to the output and read back)'
@@ -166,7 +190,15 @@ def run(ctx):
         if not agree(fi, fm):
             return None          # a model/implementation difference is never excused by a class
         op = case.split(' ')[0]
-        if op == 'pch':
+        if op == 'prm':
+            # class predicate of C13/pom-inherited-dependency: an update is addressed to a dependency the manifest inherits, with an
+            # explicit version, from a parent that is not a local file (field UpInherited of the case)
+            import json as _json
+            c = _json.loads(bytes.fromhex(case.split(' ')[1]))
+            if c.get('UpInherited', 0) > 0 and fi.get('r') == 'ok' and '0' not in fi.get('applied', '-'):
+                return 'C13/pom-inherited-dependency'
+            return None
+        if op in ('pch', 'nws'):
             return None
         if op == 'pomc' and case.split(' ')[4] == '-':
             return 'C13/pom-version-comment'
@@ -183,8 +215,8 @@ def run(ctx):
             return 'npm r=%s wf=%s' % (r, fm.get('wf'))
         if op == 'pp':
             return 'pp r=%s cons=%s' % (r, fm.get('cons'))
-        if op == 'pch':
-            return 'pch r=%s updates=%s' % (r, 'none' if case.split(' ')[2] == '-' else 'some')
+        if op in ('pch', 'prm', 'nws'):
+            return '%s r=%s updates=%s' % (op, r, 'none' if case.split(' ')[2] == '-' else 'some')
         if op == 'ws':
             return 'ws %s simple=%s same=%s' % (case.split(' ')[1], fm.get('simple'), fm.get('same'))
         return '%s r=%s updates=%s cls=%s' % (op, r, 'none' if case.split(' ')[4] == '-' else 'some', fm.get('cls'))
